@@ -1,8 +1,19 @@
 """C23 The RLP codec round-trips every supported value and rejects malformed input (spec/codec/Rlp.tla)."""
 import json
+import vlib
 
 ACTIONS = ["EncBytes", "EncNil", "EncList", "EncEnd", "Finish", "DecBytes", "DecList", "DecSkip", "DecPop",
            "Corrupt", "SPush", "Scalar"]
+
+
+def _dedup(bs):
+    seen, out = set(), []
+    for b in bs:
+        k = json.dumps(b, sort_keys=True)
+        if k not in seen:
+            seen.add(k)
+            out.append(b)
+    return out
 
 
 def run(ctx):
@@ -16,21 +27,50 @@ def run(ctx):
     ctx.check_coverage(r, ACTIONS)
     #    typed values (codec.go encodeValue/decodeValue): every (type, value) of the universe is written as an
     #    item tree whose bytes parse back to it; maps in key order; (thorough) distinct values of a type that the
-    #    decoder can tell apart have distinct item trees
-    r = ctx.model_check("codec", "MC_RlpTyped", ctx.pick("MC_RlpTyped.cfg", "MCI_RlpTyped.cfg"),
-                        constants={"Level": 1}, coverage=True, timeout=ctx.pick(400, 3000), label="typed level 1")
-    ctx.check_coverage(r, ["PickType", "Marshal"])
+    #    decoder can tell apart have distinct item trees.  Codec hooks: consensus messages (lists with an optional
+    #    last field) and TypedObj/TypedDict.  In the quick tier the generator runs check the invariants as well.
+    ty, hk = [], []
+
+    def hooks_cov(r, need, tag):
+        if not r.coverage:
+            raise vlib.MachineryError("vacuity: no coverage statistics for RlpMsg")
+        for a in need:
+            if not any(a in k and v[1] > 0 for k, v in r.coverage.items()):
+                raise vlib.MachineryError("vacuity: action %s never taken in RlpMsg (%s)" % (a, tag))
+        ctx.cov.update({k + "@" + tag: v[1] for k, v in r.coverage.items() if any(a in k for a in need)})
+    if ctx.quick():
+        r = ctx.tlc("codec", "Gen_RlpTyped", "GenMC_RlpTyped.cfg", constants={"Level": 1}, coverage=True, timeout=600,
+                    label="typed level 1 (check + generate)")
+        ctx.check_coverage(r, ["PickType", "Marshal"])
+        ty = _dedup(vlib.parse_tagged(r.printed, "B"))
+        r = ctx.tlc("codec", "Gen_RlpMsg", "GenMC_RlpMsg.cfg", constants={"Level": 1, "Family": '"both"'},
+                    coverage=True, timeout=600, label="hooks (check + generate)")
+        hooks_cov(r, ["PickMsg", "MarshalMsg", "MarshalAny"], "both")
+        hk = _dedup(vlib.parse_tagged(r.printed, "B"))
+        ctx.log("typed: %d behaviours, hooks: %d behaviours" % (len(ty), len(hk)))
+    else:
+        r = ctx.model_check("codec", "MC_RlpTyped", "MCI_RlpTyped.cfg", constants={"Level": 1}, coverage=True,
+                            timeout=3000, label="typed level 1")
+        ctx.check_coverage(r, ["PickType", "Marshal"])
+        for fam in ("msg", "any"):
+            r = ctx.model_check("codec", "MC_RlpMsg", "MCI_RlpMsg.cfg", constants={"Level": 1, "Family": '"%s"' % fam},
+                                coverage=True, timeout=3000, label="hooks " + fam)
+            hooks_cov(r, ["PickMsg", "MarshalMsg"] if fam == "msg" else ["MarshalAny"], fam)
     ctx.exhaustive = True
     # 2. behaviours
-    ty = []
     if ctx.replay:
+        ty, hk = [], []
         rp = json.load(open(ctx.replay))
         bs = [rp["detail"]["behaviour"]]
         if rp["detail"].get("typed"):
             ty, bs = bs, []
+        elif rp["detail"].get("hooks"):
+            hk, bs = bs, []
     else:
-        ty = ctx.behaviours("codec", "Gen_RlpTyped", "Gen_RlpTyped.cfg", constants={"Level": ctx.pick(1, 2)},
-                            timeout=3000)
+        if not ctx.quick():
+            hk = ctx.behaviours("codec", "Gen_RlpMsg", "Gen_RlpMsg.cfg",
+                                constants={"Level": 1, "Family": '"both"'}, timeout=1200)
+            ty = ctx.behaviours("codec", "Gen_RlpTyped", "Gen_RlpTyped.cfg", constants={"Level": 2}, timeout=3000)
         gsmall = dict(small, ScalarLen=10, Lens="{0, 1, 55, 56, 256}")
         gbig = dict(big, ScalarLen=10, MaxNodes=4, MaxItems=2)
         bs = ctx.behaviours("codec", "Gen_Rlp", "Gen_Rlp.cfg", constants=ctx.pick(gsmall, gbig), timeout=2400)
@@ -47,6 +87,12 @@ def run(ctx):
             for b in ty:
                 fh.write(json.dumps(b) + "\n")
         ctx.absorb(ctx.go_replay("rlp", "TestReplayTyped", inp, timeout=1800))
+    if hk:
+        inp = ctx.path("in", "hooks.ndjson")
+        with open(inp, "w") as fh:
+            for b in hk:
+                fh.write(json.dumps(b) + "\n")
+        ctx.absorb(ctx.go_replay("rlp", "TestReplayMsg", inp, timeout=1800))
     cor = [b for b in bs if b[-1]["op"] == "corrupt"]
     dec = [b for b in bs if b[-1]["op"] in ("dbytes", "dpop")]
     sca = [b for b in bs if b[0]["op"] == "scalar"]
@@ -55,6 +101,9 @@ def run(ctx):
     maps = [b for b in ty if b[0]["val"]["v"] == "map" and len(b[0]["val"]["items"]) == 2]
     for b in maps[:1] + ty[len(ty) // 3:len(ty) // 3 + 1]:
         ctx.sample(dict(type=b[0]["type"], val=b[0]["val"], stream=b[0]["stream"]))
+    votes = [b for b in hk if b[0]["op"] == "msg" and b[0]["name"] == "vote" and not b[0]["omitted"]]
+    for b in votes[:1] + [b for b in hk if b[0]["op"] == "any"][-1:]:
+        ctx.sample({k: b[0][k] for k in ("op", "name", "val", "obj", "stream") if k in b[0]})
     return ctx.finish(
         rule="a behaviour = TLC-generated call sequence: encoder calls building a value tree (strings of the "
              "boundary lengths, nil, nested lists) and Close with the predicted byte stream, followed by either a "
@@ -65,10 +114,15 @@ def run(ctx):
              "the typed universe (integers of all widths at their boundaries, bool, string, []byte, *big.Int, "
              "pointers, slices, structs, maps with string/int64/uint64 keys in every insertion order; thorough: "
              "one more level of nesting) marshalled, compared with the predicted bytes and unmarshalled. Distinct "
-             "by the call sequence / type and value; non-trivial if it has more than two calls / is not nil",
+             "by the call sequence / type and value; non-trivial if it has more than two calls / is not nil. "
+             "Hooks: every consensus message of the bounded field universe (ProposalMessage with/without NID, "
+             "VoteMessage with/without NTS votes, BlockPartMessage, VoteListMessage) as predicted bytes decoded by "
+             "consensus.UnmarshalMessage, compared field by field and re-encoded; every TypedObj value of the "
+             "universe through codec.MarshalAny/UnmarshalAny",
         assumptions=["payload bytes are arbitrary (seeded random); only their length and, for single bytes, the "
                      "top bit influence the format",
                      "decoding arbitrary unstructured bytes (fuzzing) is out of scope: only the malformed classes "
                      "derived from well-formed streams are exercised",
-                     "Go types are built with reflect (StructOf, MapOf, ...) from the spec's type descriptors; custom "
-                     "codec hooks (RLPEncodeSelf, MarshalBinary, TypedObj) are not part of the model"])
+                     "Go types are built with reflect (StructOf, MapOf, ...) from the spec's type descriptors",
+                     "65-byte signature payloads are arbitrary bytes with recovery byte 0/1; signatures are not verified",
+                     "the second codec (msgpack) is not modelled"])
